@@ -181,6 +181,25 @@ def _events(args):
         if not built:
             continue
         coll, R, L = built
+        # results fed back in: a gene split into single-isoform genes by interval-GUID queries (each keeps the gene's
+        # identifier) and both halves put into ONE collection -- two members, one GUID.  Only range queries are asked of it
+        # (what an identifier query answers for a shared GUID is not stated anywhere)
+        dup = False
+        if not big and not with_seq and rnd.random() < 0.25:
+            gs = [g for g in coll.genes if len({t.guid for t in g.transcripts}) >= 2 and len(g.transcripts) == len({t.guid for t in g.transcripts})]
+            if gs:
+                from inscripta.biocantor.gene.collections import AnnotationCollection
+
+                g = rnd.choice(gs)
+                try:
+                    halves = [coll.query_by_transcript_interval_guids([t.guid]).genes[0] for t in g.transcripts]
+                    coll = AnnotationCollection(feature_collections=coll.feature_collections,
+                                                genes=[x for x in coll.genes if x is not g] + halves,
+                                                variant_collections=coll.variant_collections, sequence_name="chr",
+                                                start=coll.start, end=coll.end)
+                    dup = True
+                except Exception:
+                    dup = False
         if rnd.random() < 0.2:  # a collection whose members were already asked everything
             for m in coll.iter_children():
                 E.warm(m)
@@ -196,6 +215,8 @@ def _events(args):
             overhang = depth == 1 and len(allm) >= 2 and any(m.start < cur.start or m.end > cur.end for m in allm)
             if overhang and rnd.random() < 0.7:
                 r = 0.6 + 0.4 * rnd.random()
+            if dup:
+                r = 0.6 * rnd.random()
             if r < 0.6:
                 if big:
                     kids = [c for m in allm for c in m.iter_children()]
